@@ -18,6 +18,7 @@
   due rule `now - start ≥ interval` does not care where `now` comes from.
 -/
 import IgrisModel.C16.Refine
+import IgrisModel.C16.More
 namespace Igris.C16
 
 /-! ### sorted_inv -/
@@ -431,5 +432,528 @@ theorem stimer_periodic_rule (t : STimer) (now : Int) :
     exact ⟨⟨fun _ => h.mp hc, fun _ => rfl⟩, fun _ => by simp [stimerSwift], fun e => by simp at e⟩
   · rename_i hc
     refine ⟨⟨fun e => by simp at e, fun e => absurd (h.mpr e) hc⟩, fun e => by simp at e, fun _ => rfl⟩
+
+
+/-! ## Extensions
+
+### naming of the theorems that carry a hypothesis which cannot be dropped
+
+FULL statements that do NOT hold for the code (each with its kernel-checked witness above):
+"callbacks within one exec run in non-decreasing deadline order" (`order_in_exec_witness`),
+"minimal_interval(now) is the reference's time to the next deadline" (`minimal_interval_empty_witness`),
+"exec(now) returns" (`exec_terminates_needs_future`).  The provable forms under their visible hypothesis: -/
+
+theorem order_in_exec_partial (cb : Cb) (now : Int) (fuel k : Nat) (m : Mgr) (hm : WF m) (hcb : CbPos cb)
+    (hnp : ∀ n f, (execLoop cb now fuel k m).2.1[n]? = some f →
+      ∀ j s iv, Action.plan j s iv ∈ cb (k + n) f.id → f.deadline ≤ s + iv) :
+    ((execLoop cb now fuel k m).2.1.map (·.deadline)).Pairwise (· ≤ ·) :=
+  order_in_exec cb now fuel k m hm hcb hnp
+
+theorem minimal_interval_eq_partial (m : Mgr) (hm : WF m) (now v : Int) (h : m.minimalInterval now = some v) :
+    (absM m).Earliest (v + now) := minimal_interval_eq m hm now v h
+
+theorem exec_terminates_partial (cb : Cb) (now : Int) (k : Nat) (m : Mgr) (hm : WF m) (hcb : CbPos cb)
+    (hfut : CbFuture now cb) (fuel : Nat) (hfuel : lagSum now m ≤ fuel) :
+    (execLoop cb now fuel k m).2.2 = true := exec_terminates cb now k m hm hcb hfut fuel hfuel
+
+/-- outside "positive intervals": a planned due timer whose interval is `≤ 0` makes `exec` spin —
+for EVERY fuel the loop is still running (callbacks that do nothing) -/
+theorem nonpositive_interval_never_returns (now s iv : Int) (hiv : iv ≤ 0) (hdue : s + iv ≤ now) :
+    ∀ fuel k, (execLoop (fun _ _ => []) now fuel k ⟨fun _ => ⟨s, iv⟩, [0]⟩).2.2 = false := by
+  intro fuel
+  induction fuel generalizing s with
+  | zero =>
+    intro k
+    have : (decide (now - s ≥ iv)) = true := by simp; omega
+    simp [execLoop, Mgr.headDue, Timer.check, this]
+  | succ n ih =>
+    intro k
+    have hc : (decide (now - s ≥ iv)) = true := by simp; omega
+    have hd : (⟨fun _ => ⟨s, iv⟩, [0]⟩ : Mgr).headDue now = some 0 := by simp [Mgr.headDue, Timer.check, hc]
+    have hb : execBody [] ⟨fun _ => ⟨s, iv⟩, [0]⟩ 0 = ⟨setTm (fun _ => ⟨s, iv⟩) 0 ⟨s + iv, iv⟩, [0]⟩ := by
+      simp [execBody, rearm, runCb, Mgr.unplan, Mgr.plan, insertBefore, Timer.shift]
+    have he : (⟨setTm (fun _ => ⟨s, iv⟩) 0 ⟨s + iv, iv⟩, [0]⟩ : Mgr).headDue now = some 0 := by
+      have : (decide (now - (s + iv) ≥ iv)) = true := by simp; omega
+      simp [Mgr.headDue, Timer.check, this]
+    -- the state after the body behaves like a fresh single-timer manager with start s + iv
+    have key : ∀ (fuel k : Nat) (tm : Nat → Timer), tm 0 = ⟨s + iv, iv⟩ →
+        (execLoop (fun _ _ => []) now fuel k ⟨tm, [0]⟩).2.2 =
+        (execLoop (fun _ _ => []) now fuel k ⟨fun _ => ⟨s + iv, iv⟩, [0]⟩).2.2 := by
+      intro fuel
+      induction fuel with
+      | zero => intro k tm h0; simp [execLoop, Mgr.headDue, h0]
+      | succ q ihq =>
+        intro k tm h0
+        unfold execLoop
+        have e1 : (⟨tm, [0]⟩ : Mgr).headDue now = (⟨fun _ => ⟨s + iv, iv⟩, [0]⟩ : Mgr).headDue now := by
+          simp [Mgr.headDue, h0]
+        rw [e1]
+        cases hh : (⟨fun _ => ⟨s + iv, iv⟩, [0]⟩ : Mgr).headDue now with
+        | none => rfl
+        | some i =>
+          have hi : i = 0 := by
+            simp only [Mgr.headDue] at hh
+            split at hh <;> simp_all
+          subst hi
+          simp only
+          have b1 : execBody [] ⟨tm, [0]⟩ 0 = ⟨setTm tm 0 ⟨s + iv + iv, iv⟩, [0]⟩ := by
+            simp [execBody, rearm, runCb, Mgr.unplan, Mgr.plan, insertBefore, Timer.shift, h0]
+          have b2 : execBody [] ⟨fun _ => ⟨s + iv, iv⟩, [0]⟩ 0 =
+              ⟨setTm (fun _ => ⟨s + iv, iv⟩) 0 ⟨s + iv + iv, iv⟩, [0]⟩ := by
+            simp [execBody, rearm, runCb, Mgr.unplan, Mgr.plan, insertBefore, Timer.shift]
+          show (execLoop _ now q (k + 1) (execBody [] ⟨tm, [0]⟩ 0)).2.2 =
+            (execLoop _ now q (k + 1) (execBody [] ⟨fun _ => ⟨s + iv, iv⟩, [0]⟩ 0)).2.2
+          rw [b1, b2]
+          -- both states have timer 0 = ⟨s+iv+iv, iv⟩: compare through a common canonical state
+          have c1 : ∀ (tm1 tm2 : Nat → Timer), tm1 0 = tm2 0 →
+              (execLoop (fun _ _ => []) now q (k + 1) ⟨tm1, [0]⟩).2.2 =
+              (execLoop (fun _ _ => []) now q (k + 1) ⟨tm2, [0]⟩).2.2 := by
+            intro tm1 tm2 h12
+            -- generalise: only timer 0 matters
+            have gen : ∀ (fuel k : Nat) (a b : Nat → Timer), a 0 = b 0 →
+                (execLoop (fun _ _ => []) now fuel k ⟨a, [0]⟩).2.2 =
+                (execLoop (fun _ _ => []) now fuel k ⟨b, [0]⟩).2.2 := by
+              intro fuel
+              induction fuel with
+              | zero => intro k a b hab; simp [execLoop, Mgr.headDue, hab]
+              | succ r ihr =>
+                intro k a b hab
+                unfold execLoop
+                have e2 : (⟨a, [0]⟩ : Mgr).headDue now = (⟨b, [0]⟩ : Mgr).headDue now := by
+                  simp [Mgr.headDue, hab]
+                rw [e2]
+                cases hb2 : (⟨b, [0]⟩ : Mgr).headDue now with
+                | none => rfl
+                | some j =>
+                  have hj : j = 0 := by
+                    simp only [Mgr.headDue] at hb2
+                    split at hb2 <;> simp_all
+                  subst hj
+                  simp only
+                  have x1 : execBody [] ⟨a, [0]⟩ 0 = ⟨setTm a 0 (a 0).shift, [0]⟩ := by
+                    simp [execBody, rearm, runCb, Mgr.unplan, Mgr.plan, insertBefore]
+                  have x2 : execBody [] ⟨b, [0]⟩ 0 = ⟨setTm b 0 (b 0).shift, [0]⟩ := by
+                    simp [execBody, rearm, runCb, Mgr.unplan, Mgr.plan, insertBefore]
+                  show (execLoop _ now r (k + 1) (execBody [] ⟨a, [0]⟩ 0)).2.2 =
+                    (execLoop _ now r (k + 1) (execBody [] ⟨b, [0]⟩ 0)).2.2
+                  rw [x1, x2]
+                  exact ihr (k + 1) _ _ (by simp [hab])
+            exact gen q (k + 1) tm1 tm2 h12
+          exact c1 _ _ (by simp)
+    unfold execLoop
+    rw [hd]
+    simp only
+    rw [hb, key n (k + 1) _ (by simp)]
+    exact ih (s + iv) (by omega) (k + 1)
+
+-- the hypotheses are satisfiable: interval 0, deadline 5, now 5
+example : (0 : Int) ≤ 0 ∧ (5 : Int) + 0 ≤ 5 := by omega
+
+/-- a callback that re-plans its own timer with exactly the values it already has is "left
+alone" for the code and for the reference alike: it asked for deadline `s + iv` and gets
+`s + 2·iv` (this is what `rearm_self_replan` excludes by `hne`) -/
+theorem rearm_self_replan_same_values_witness :
+    ((execBody [Action.plan 0 0 3] (Mgr.init.plan3 0 0 3) 0).tm 0).finish = 6 ∧
+    ((execBody [Action.plan 0 1 2] (Mgr.init.plan3 0 0 3) 0).tm 0).finish = 3 := by
+  decide
+
+/-! ### wrap-around: `timer_manager_basic<timer_spec<uint32_t>>` (model `Wrap.lean`)
+
+Precondition on a history (`HistWin G D lo c ops`, `lo` = time of the previous `exec`, `c` = latest
+time seen): positive intervals of at most `D`; time does not go backwards (an `exec` is not given
+a time before a start handed to `plan` since); every `exec` comes at most `G` after the previous
+one; no deadline is planned before the time of the previous `exec`; `G + D < 2^31`. -/
+
+/-- one `exec(now)`: the 32-bit manager makes exactly the callbacks of the unbounded-time manager
+(deadlines modulo 2^32), ends in its state modulo 2^32 and returns when it returns — so
+`not_early`, `all_due_fire`, `due_runs`, `order_in_exec*`, `rearm_*`, `catch_up` hold ACROSS the wrap -/
+theorem wrap_exec_refines {G D now : Int} (P : Params G D) (cb : Cb) (hcb : CbWin G D now cb) (fuel k : Nat)
+    (m : Mgr) (hw : Win G D now m) :
+    execLoopW .signedDiff (cbToW cb) (wr now) fuel k m.toW =
+      ((execLoop cb now fuel k m).1.toW, (execLoop cb now fuel k m).2.1.map Fire.toW,
+        (execLoop cb now fuel k m).2.2) :=
+  (execLoop_sim P cb hcb fuel k m hw).1
+
+/-- whole histories across any number of wraps -/
+theorem wrap_refines {G D : Int} (P : Params G D) (ops : List Op) (lo c : Int) (m : Mgr) (hm : WF m)
+    (hj : J D lo c m) (hc : c ≤ lo + G) (hh : HistWin G D lo c ops) (hfin : (runOps m ops).2.2 = true) :
+    runOpsW .signedDiff m.toW (ops.map Op.toW) =
+      ((runOps m ops).1.toW, (runOps m ops).2.1.map (fun fs => fs.map Fire.toW), true) :=
+  runOps_sim P ops lo c m hm hj hc hh hfin
+
+theorem HistWin.valid {G D : Int} : ∀ (ops : List Op) (lo c : Int), HistWin G D lo c ops → ∀ op ∈ ops, OpValid op
+  | [], _, _, _ => by simp
+  | .plan i s iv :: ops, lo, c, h => by
+    intro op hop
+    rcases List.mem_cons.mp hop with e | e
+    · subst e; exact h.1
+    · exact HistWin.valid ops lo (max c s) h.2.2.2.2 op e
+  | .unplan i :: ops, lo, c, h => by
+    intro op hop
+    rcases List.mem_cons.mp hop with e | e
+    · subst e; trivial
+    · exact HistWin.valid ops lo c h op e
+  | .exec now cb fuel :: ops, lo, c, h => by
+    intro op hop
+    rcases List.mem_cons.mp hop with e | e
+    · subst e; exact h.2.2.1.pos
+    · exact HistWin.valid ops now now h.2.2.2 op e
+
+/-- … hence from a fresh manager the 32-bit manager's callbacks and pending set are those of the
+REFERENCE scheduler run in unbounded time on the same history, read modulo 2^32: timers fire
+exactly when due and in deadline order across the wrap -/
+theorem wrap_refines_reference {G D : Int} (P : Params G D) (ops : List Op) (t0 : Int)
+    (hh : HistWin G D t0 t0 ops) (hfin : (runOps Mgr.init ops).2.2 = true) :
+    ∃ (fss : List (List Fire)) (m' : Mgr),
+      Ref.Hist Ref.none ops fss (absM m') ∧
+      runOpsW .signedDiff MgrW.init (ops.map Op.toW) = (m'.toW, fss.map (fun fs => fs.map Fire.toW), true) := by
+  refine ⟨(runOps Mgr.init ops).2.1, (runOps Mgr.init ops).1,
+    refines_reference_init ops (HistWin.valid ops t0 t0 hh) hfin, ?_⟩
+  have h := wrap_refines P ops t0 t0 Mgr.init init_wf (by intro i hi; simp [Mgr.init] at hi)
+    (by have := P.g0; omega) hh hfin
+  exact h
+
+-- the precondition is satisfiable by a history that crosses the wrap (2^32 = 4294967296)
+example : HistWin (2 ^ 30) (2 ^ 30) 4294967200 4294967200
+    [Op.plan 0 4294967200 50, Op.exec 4294967290 (fun _ _ => [Action.plan 1 4294967290 10]) 9,
+     Op.exec 4294967300 (fun _ _ => []) 9] := by
+  refine ⟨by omega, by omega, by omega, by omega, by omega, by omega, ?_, by omega, by omega, ?_, trivial⟩
+  · intro k i a ha
+    simp only [List.mem_singleton] at ha
+    subst ha
+    exact ⟨by simp, by simp, by simp, by simp [Timer.finish]⟩
+  · intro k i a ha; simp at ha
+
+/-- `minimal_interval` is the unbounded one modulo 2^32 (no precondition) -/
+theorem wrap_minimal_interval (m : Mgr) (now : Int) :
+    m.toW.minimalInterval (wr now) = (m.minimalInterval now).map wr := by
+  unfold MgrW.minimalInterval Mgr.minimalInterval
+  show (match m.lst with | [] => none | i :: _ => some ((m.tm i).toW.finish - wr now)) = _
+  cases m.lst with
+  | nil => rfl
+  | cons i rest => simp [wr_sub]
+
+/-- the code AS SHIPPED (`finish < tim.finish()` on unsigned values): timer 0 has deadline
+2^32 − 16, timer 1 deadline 2^32 + 5 (= 5 after the wrap) is sorted in front of it, and at
+time 2^32 − 14 timer 0 is due but `exec` makes no callback; the repaired comparison runs it -/
+theorem wrap_unsigned_less_witness :
+    let plans (c : Cmp) := (MgrW.init.plan3 c 0 (wr 4294967264) (wr 16)).plan3 c 1 (wr 4294967264) (wr 37)
+    (plans .less).lst = [1, 0] ∧
+    ((plans .less).tm 0).check (wr 4294967282) = true ∧
+    (execLoopW .less (fun _ _ => []) (wr 4294967282) 5 0 (plans .less)).2.1 = [] ∧
+    (execLoopW .signedDiff (fun _ _ => []) (wr 4294967282) 5 0 (plans .signedDiff)).2.1 = [⟨0, wr 4294967280⟩] := by
+  decide
+
+/-- the precondition cannot be relaxed to "gap < 2^31 and interval < 2^31": 2^31 − 2 ticks after
+the previous exec (time 0) a timer with interval 2^31 − 1 is planned while timer 0 (deadline 5) is
+overdue; the difference of the deadlines does not fit `int32_t`, the new timer is put in front and
+the overdue timer does not run although `exec` returns -/
+theorem wrap_window_needed_witness :
+    let m := (MgrW.init.plan3 .signedDiff 0 (wr 0) (wr 5)).plan3 .signedDiff 1 (wr 2147483646) (wr 2147483647)
+    m.lst = [1, 0] ∧ (m.tm 0).check (wr 2147483646) = true ∧
+    (execLoopW .signedDiff (fun _ _ => []) (wr 2147483646) 5 0 m).2 = ([], true) := by
+  decide
+
+/-- nor can "no start after the clock": an unsigned `check` reads a start 10 ticks in the future as
+a start 2^32 − 10 ticks ago and runs the timer at once (the unbounded-time manager does not) -/
+theorem wrap_future_start_witness :
+    (execLoopW .signedDiff (fun _ _ => []) (wr 100) 1 0
+        (MgrW.init.plan3 .signedDiff 0 (wr 110) (wr 1073741824))).2.1 = [⟨0, wr 1073741934⟩] ∧
+    (execLoop (fun _ _ => []) 100 1 0 (Mgr.init.plan3 0 110 1073741824)).2.1 = [] := by
+  decide
+
+/-! ### stimer in the arithmetic of a `w`-bit `long` (model `stimerCheckN` …, `Wrap.lean`) -/
+
+/-- the due rule against an independent statement: with the tick values read in unbounded time,
+`stimer_check` (computed in wrapping `w`-bit arithmetic) says "due" exactly when the timer is
+planned and the deadline `start + interval` has been reached — provided the poll is less than
+half the range away from the start -/
+theorem stimer_wrap_due_iff (w : Nat) (hw : 0 < w) (t : STimer) (now : Int)
+    (h1 : -2 ^ (w - 1) ≤ now - t.start) (h2 : now - t.start < 2 ^ (w - 1))
+    (h3 : -2 ^ (w - 1) ≤ t.interval) (h4 : t.interval < 2 ^ (w - 1)) :
+    stimerCheckN (t.toN w) (BitVec.ofInt w now) = true ↔ t.planed = true ∧ t.start + t.interval ≤ now := by
+  rw [stimerCheckN_sim w hw t now h1 h2 h3 h4]
+  exact stimer_check_iff t now
+
+-- satisfiable across the wrap of a 32-bit long: start 2^31 − 6, poll at 2^31 + 10
+example : (-2 ^ (32 - 1) : Int) ≤ 2147483658 - 2147483642 ∧ (2147483658 - 2147483642 : Int) < 2 ^ (32 - 1) := by
+  omega
+
+/-- the polls of a history stay within half the range of the (moving) start -/
+def PollsWin (w : Nat) : STimer → List Int → Prop
+  | _, [] => True
+  | t, now :: ts =>
+    (-2 ^ (w - 1) ≤ now - t.start ∧ now - t.start < 2 ^ (w - 1)) ∧ PollsWin w (stimerPeriodic t now).1 ts
+
+def stimerPollsN {w : Nat} (t : STimerN w) : List (BitVec w) → STimerN w × List Bool
+  | [] => (t, [])
+  | now :: ts =>
+    let r := stimerPeriodicN t now
+    let r' := stimerPollsN r.1 ts
+    (r'.1, r.2 :: r'.2)
+
+/-- `STIMER_PERIODIC` polled across the wrap fires at the polls at which the unbounded-time timer
+fires and ends in its state modulo 2^w — with `stimer_periodic_no_drift`: no drift across the wrap -/
+theorem stimer_wrap_polls (w : Nat) (hw : 0 < w) (t : STimer) (ts : List Int)
+    (h3 : -2 ^ (w - 1) ≤ t.interval) (h4 : t.interval < 2 ^ (w - 1)) (hp : PollsWin w t ts) :
+    stimerPollsN (t.toN w) (ts.map (BitVec.ofInt w)) = ((stimerPolls t ts).1.toN w, (stimerPolls t ts).2) := by
+  induction ts generalizing t with
+  | nil => rfl
+  | cons now ts ih =>
+    obtain ⟨⟨a, b⟩, c⟩ := hp
+    simp only [List.map_cons, stimerPollsN, stimerPolls, stimerPeriodicN_sim w hw t now a b h3 h4]
+    have hiv : (stimerPeriodic t now).1.interval = t.interval := by
+      unfold stimerPeriodic; split <;> rfl
+    rw [ih (stimerPeriodic t now).1 (by rw [hiv]; exact h3) (by rw [hiv]; exact h4) c]
+
+example : PollsWin 32 ⟨2147483642, 10, true⟩ [2147483645, 2147483652, 2147483670] := by
+  refine ⟨by dsimp only; omega, ?_⟩
+  have e1 : (stimerPeriodic ⟨2147483642, 10, true⟩ 2147483645).1 = ⟨2147483642, 10, true⟩ := by decide
+  rw [e1]
+  refine ⟨by dsimp only; omega, ?_⟩
+  have e2 : (stimerPeriodic ⟨2147483642, 10, true⟩ 2147483652).1 = ⟨2147483652, 10, true⟩ := by decide
+  rw [e2]
+  exact ⟨by dsimp only; omega, trivial⟩
+
+/-- outside the window the wrapped rule and the unbounded rule differ (32-bit `long`): a poll 2^31
+ticks after the start reads the elapsed time as negative — "not due" although the deadline passed -/
+theorem stimer_wrap_window_needed_witness :
+    stimerCheckN ((⟨0, 10, true⟩ : STimer).toN 32) (BitVec.ofInt 32 2147483648) = false ∧
+    stimerCheck ⟨0, 10, true⟩ 2147483648 = true ∧
+    -- inside the window, across the wrap of a 32-bit long, they agree (audit probe P8)
+    stimerCheckN ((⟨2147483642, 10, true⟩ : STimer).toN 32) (BitVec.ofInt 32 2147483658) = true := by
+  decide
+
+/-! ### no drift over whole histories -/
+
+/-- the operation does not name timer `i` -/
+def OpUntouched (i : Nat) : Op → Prop
+  | .plan j _ _ => j ≠ i
+  | .unplan j => j ≠ i
+  | .exec _ cb _ => Untouched cb i
+
+def execTimes : List Op → List Int
+  | [] => []
+  | .exec now _ _ :: ops => now :: execTimes ops
+  | _ :: ops => execTimes ops
+
+theorem range_map_add (n1 n2 : Nat) (f d : Int) :
+    (List.range (n1 + n2)).map (fun (q : Nat) => f + (q : Int) * d) =
+      (List.range n1).map (fun (q : Nat) => f + (q : Int) * d) ++
+      (List.range n2).map (fun (q : Nat) => (f + (n1 : Int) * d) + (q : Int) * d) := by
+  rw [List.range_add, List.map_append, List.map_map]
+  congr 1
+  apply List.map_congr_left
+  intro q _
+  simp only [Function.comp, Int.natCast_add, Int.add_mul]
+  omega
+
+/-- No drift at full strength: a planned periodic timer (deadline `f`, interval `d`) that no later
+operation names fires — over the WHOLE history, however late and however irregular the `exec`
+calls come, whatever the other timers and callbacks do — exactly at `f, f+d, …, f+(n-1)·d` in this
+order, stays planned with deadline `f + n·d`, and `n` is the number of deadlines that lie at or
+before the latest `exec` time: every exec time is `< f + n·d`, and (if `n > 0`) some exec time is
+`≥ f + (n-1)·d`. -/
+theorem no_drift_history (i : Nat) (ops : List Op) (m : Mgr) (hm : WF m) (hv : ∀ op ∈ ops, OpValid op)
+    (hu : ∀ op ∈ ops, OpUntouched i op) (hfin : (runOps m ops).2.2 = true) (hi : i ∈ m.lst) :
+    ∃ n : Nat,
+      ((runOps m ops).2.1.flatten.filter (fun f => f.id = i)).map (·.deadline) =
+        (List.range n).map (fun (q : Nat) => (m.tm i).finish + (q : Int) * (m.tm i).interval) ∧
+      (runOps m ops).1.tm i = ⟨(m.tm i).start + (n : Int) * (m.tm i).interval, (m.tm i).interval⟩ ∧
+      i ∈ (runOps m ops).1.lst ∧
+      (∀ t ∈ execTimes ops, t < (m.tm i).finish + (n : Int) * (m.tm i).interval) ∧
+      (0 < n → ∃ t ∈ execTimes ops, (m.tm i).finish + ((n : Int) - 1) * (m.tm i).interval ≤ t) := by
+  induction ops generalizing m with
+  | nil =>
+    refine ⟨0, by simp [runOps], by simp [runOps], by simpa [runOps] using hi, by simp [execTimes], by simp⟩
+  | cons op ops ih =>
+    have hop := hv op (by simp)
+    have huo := hu op (by simp)
+    have hv' := fun o ho => hv o (List.mem_cons_of_mem _ ho)
+    have hu' := fun o ho => hu o (List.mem_cons_of_mem _ ho)
+    simp only [runOps, Bool.and_eq_true] at hfin
+    have hpos := hm.pos i hi
+    cases op with
+    | plan j s iv =>
+      have hji : i ≠ j := fun e => huo e.symm
+      have hi' : i ∈ (m.plan3 j s iv).lst := (mem_plan3 m j i s iv).mpr (Or.inr hi)
+      have htm : (m.plan3 j s iv).tm i = m.tm i := by rw [plan3_tm, setTm_other _ _ hji]
+      obtain ⟨n, h1, h2, h3, h4, h5⟩ := ih (m.plan3 j s iv) (hm.plan3 j s iv hop) hv' hu' hfin.2 hi'
+      rw [htm] at h1 h2 h4 h5
+      exact ⟨n, by simpa [runOps, stepOp] using h1, by simpa [runOps, stepOp] using h2,
+        by simpa [runOps, stepOp] using h3, by simpa [execTimes] using h4, by simpa [execTimes] using h5⟩
+    | unplan j =>
+      have hji : i ≠ j := fun e => huo e.symm
+      have hi' : i ∈ (m.unplan j).lst := (mem_unplan m j i).mpr ⟨hi, hji⟩
+      obtain ⟨n, h1, h2, h3, h4, h5⟩ := ih (m.unplan j) (hm.unplan j) hv' hu' hfin.2 hi'
+      exact ⟨n, by simpa [runOps, stepOp] using h1, by simpa [runOps, stepOp] using h2,
+        by simpa [runOps, stepOp] using h3, by simpa [execTimes] using h4, by simpa [execTimes] using h5⟩
+    | exec now cb fuel =>
+      obtain ⟨n1, c1, c2, c3, c4, c5⟩ := catch_up cb now fuel 0 m hm hop hfin.1 i huo hi
+      have hm' := sorted_inv_exec cb now fuel 0 m hm hop
+      obtain ⟨n2, h1, h2, h3, h4, h5⟩ := ih (execLoop cb now fuel 0 m).1 hm' hv' hu' hfin.2 c3
+      rw [c2] at h1 h2 h4 h5
+      simp only [Timer.finish] at h1 h2 h4 h5 c4 c5 ⊢
+      refine ⟨n1 + n2, ?_, ?_, by simpa [runOps, stepOp] using h3, ?_, ?_⟩
+      · simp only [runOps, stepOp, List.flatten_cons, List.filter_append, List.map_append]
+        rw [c1, h1, range_map_add]
+        simp only [Timer.finish]
+        congr 2
+        · funext q; omega
+      · simp only [runOps, stepOp]
+        rw [h2]
+        simp only [Int.natCast_add, Int.add_mul, Timer.mk.injEq, and_true]
+        omega
+      · intro t ht
+        simp only [execTimes, List.mem_cons] at ht
+        have hn2 : (0 : Int) ≤ (n2 : Int) * (m.tm i).interval := Int.mul_nonneg (by omega) (by omega)
+        simp only [Int.natCast_add, Int.add_mul]
+        rcases ht with e | e
+        · subst e; omega
+        · have := h4 t e; omega
+      · intro hn
+        simp only [execTimes, List.mem_cons]
+        by_cases hn2 : 0 < n2
+        · obtain ⟨t, ht, hle⟩ := h5 hn2
+          refine ⟨t, Or.inr ht, ?_⟩
+          simp only [Int.natCast_add, Int.add_mul, Int.sub_mul] at hle ⊢
+          omega
+        · have e : n2 = 0 := by omega
+          subst e
+          have := c5 (by omega)
+          refine ⟨now, Or.inl rfl, ?_⟩
+          simpa using this
+
+/-- … and as a count: if `T` is the latest `exec` time of the history and the timer was planned at
+start `s` with interval `d` (deadline `s + d`), the number of its firings is `⌊(T − s)/d⌋`
+(0 when `T < s + d`) — for every exec schedule -/
+theorem firing_count_history (s d T : Int) (n : Nat) (times : List Int) (hd : 0 < d)
+    (hT : T ∈ times) (hmax : ∀ t ∈ times, t ≤ T)
+    (h1 : ∀ t ∈ times, t < (s + d) + (n : Int) * d)
+    (h2 : 0 < n → ∃ t ∈ times, (s + d) + ((n : Int) - 1) * d ≤ t) :
+    (n : Int) = ((T - s) / d).toNat := by
+  have a := h1 T hT
+  rcases Nat.eq_zero_or_pos n with e | e
+  · subst e
+    simp only [Int.natCast_zero, Int.zero_mul, Int.add_zero] at a
+    have : (T - s) / d ≤ 0 := by
+      have : (T - s) / d < 1 := by rw [Int.ediv_lt_iff_lt_mul hd]; omega
+      omega
+    omega
+  · obtain ⟨t, ht, hle⟩ := h2 e
+    have := hmax t ht
+    have lo : (n : Int) ≤ (T - s) / d := by
+      rw [Int.le_ediv_iff_mul_le hd]
+      have : (s + d) + ((n : Int) - 1) * d = s + (n : Int) * d := by rw [Int.sub_mul]; omega
+      omega
+    have hi : (T - s) / d < (n : Int) + 1 := by
+      rw [Int.ediv_lt_iff_lt_mul hd]
+      have : ((n : Int) + 1) * d = (n : Int) * d + d := by rw [Int.add_mul]; omega
+      omega
+    omega
+
+-- satisfiable: planned at 0 with interval 3, execs at 4 and 10: 3 firings (3, 6, 9)
+example : ((3 : Nat) : Int) = (((10 : Int) - 0) / 3).toNat := by decide
+
+/-! ### FIFO among equal deadlines (the code has it: `plan` inserts before the first STRICTLY later deadline) -/
+
+/-- a timer planned while `b` is planned with a deadline that is not later is linked behind `b` -/
+theorem plan_behind_equal_deadline (m : Mgr) (hm : WF m) (a b : Nat) (s iv : Int) (hab : b ≠ a)
+    (hb : b ∈ m.lst) (hle : (m.tm b).finish ≤ s + iv) :
+    [b, a].Sublist (m.plan3 a s iv).lst := by
+  rw [plan3_eq]
+  have hu := (hm.unplan a).setTm a ⟨s, iv⟩ (not_mem_unplan m a)
+  have hb' : b ∈ (m.unplan a).lst := (mem_unplan m a b).mpr ⟨hb, hab⟩
+  have hunplan : (({ m.unplan a with tm := setTm m.tm a ⟨s, iv⟩ } : Mgr).unplan a).lst = (m.unplan a).lst := by
+    simp [Mgr.unplan, List.filter_filter]
+  show [b, a].Sublist (insertBefore _ _ a _)
+  rw [hunplan]
+  apply insertBefore_after _ _ a b _ hu.sorted hb'
+  show (setTm m.tm a ⟨s, iv⟩ b).finish ≤ (setTm m.tm a ⟨s, iv⟩ a).finish
+  rw [setTm_other _ _ hab, setTm_same]
+  exact hle
+
+/-- stability: if `a` stands behind `b` in the list (in particular: planned later with the same
+deadline) and no callback names either of them, every callback of `a` in an `exec` is preceded by
+a callback of `b` — equal deadlines run in the order in which they were planned -/
+theorem fifo_equal_deadlines (cb : Cb) (now : Int) (fuel k : Nat) (m : Mgr) (hm : WF m) (hcb : CbPos cb)
+    (a b : Nat) (hab : a ≠ b) (hp : [b, a].Sublist m.lst) (hua : Untouched cb a) (hub : Untouched cb b) :
+    ∀ (n : Nat) (f : Fire), (execLoop cb now fuel k m).2.1[n]? = some f → f.id = a →
+      ∃ (n' : Nat) (g : Fire), n' < n ∧ (execLoop cb now fuel k m).2.1[n']? = some g ∧ g.id = b :=
+  (execLoop_steps cb now fuel k m).fifo hcb hm hab hp hua hub
+
+-- two timers with the same deadline 3, planned 0 then 1: they run 0 then 1
+example : (execLoop (fun _ _ => []) 3 5 0 ((Mgr.init.plan3 0 0 3).plan3 1 1 2)).2.1 = [⟨0, 3⟩, ⟨1, 3⟩] := by decide
+
+/-! ### setters, `plan(tim)`, destruction, nested `exec` (model `Ext.lean`) -/
+
+/-- on callbacks that only plan / unplan, the extended `exec` is the `exec` of the theorems above -/
+theorem execX_conservative (cb : Cb) (fuel : Nat) (now : Int) (k : Nat) (m : Mgr) :
+    execX (fun k i => (cb k i).map ActX.ofAction) fuel now k m =
+      ((execLoop cb now fuel k m).1, (execLoop cb now fuel k m).2.1, statOfBool (execLoop cb now fuel k m).2.2) :=
+  execX_base_aux cb fuel now k m
+
+/-- which operations preserve the invariant: the setters on a timer that is NOT planned,
+`plan(tim)` of a timer with a positive interval, destroying a timer, destroying the manager -/
+theorem setters_on_unplanned_keep_invariant (m : Mgr) (hm : WF m) (i : Nat) (v : Int) (hi : i ∉ m.lst) :
+    WF (m.setStart i v) ∧ WF (m.setInterval i v) :=
+  ⟨hm.setTm i _ hi, hm.setTm i _ hi⟩
+
+theorem replan_keeps_invariant (m : Mgr) (hm : WF m) (i : Nat) (hp : 0 < (m.tm i).interval) : WF (m.plan i) :=
+  hm.plan i hp
+
+theorem destroy_keeps_invariant (m : Mgr) (hm : WF m) (i : Nat) : WF (m.destroy i) ∧ WF m.dropMgr := by
+  refine ⟨?_, ⟨List.nodup_nil, List.Pairwise.nil, by simp [Mgr.dropMgr]⟩⟩
+  exact (hm.unplan i).setTm i {} (not_mem_unplan m i)
+
+/-- destroying a timer is unplanning it (for the list and for every other timer) -/
+theorem destroy_is_unplan (m : Mgr) (i : Nat) :
+    (m.destroy i).lst = (m.unplan i).lst ∧ ∀ x, x ≠ i → (m.destroy i).tm x = m.tm x :=
+  ⟨rfl, fun x hx => setTm_other _ _ hx⟩
+
+/-- the documented sequence `set_start; set_interval; plan(tim)` is `plan(tim, start, interval)`,
+also on a planned timer (`plan` unlinks first) -/
+theorem setters_then_plan (m : Mgr) (i : Nat) (s iv : Int) :
+    ((m.setStart i s).setInterval i iv).plan i = m.plan3 i s iv := by
+  unfold Mgr.plan3 Mgr.setStart Mgr.setInterval
+  congr 2
+  funext x
+  simp only [setTm]
+  split <;> simp_all
+
+/-- the operation that does NOT preserve the invariant: a setter on a PLANNED timer.  Timers 0
+(deadline 5) and 1 (deadline 7); `set_start(10)` on timer 0 moves its deadline to 15 but not its
+place: the list is no longer sorted, at time 8 timer 1 is due and `exec` returns without running
+it, and `minimal_interval` is not the time to the earliest deadline; `plan(tim)` repairs it -/
+theorem set_start_on_planned_witness :
+    let m := ((Mgr.init.plan3 0 0 5).plan3 1 0 7).setStart 0 10
+    m.lst = [0, 1] ∧ (m.tm 0).finish = 15 ∧ (m.tm 1).finish = 7 ∧
+    (execLoop (fun _ _ => []) 8 5 0 m).2 = ([], true) ∧
+    m.minimalInterval 8 = some 7 ∧
+    (execLoop (fun _ _ => []) 8 5 0 (m.plan 0)).2.1 = [⟨1, 7⟩] := by
+  decide
+
+/-- nested `exec` (finding C16-nested-exec-refires): the callback of timer 0 (deadline 5) calls
+`exec(5)`; its own timer is still at the head with its old fields, so the nested exec runs the same
+callback again for the same deadline -/
+theorem nested_exec_refires_witness :
+    (execX (fun k _ => if k = 0 then [ActX.exec 5] else []) 5 5 0 ((Mgr.init.plan3 0 0 5).plan3 1 0 6)).2.1 =
+      [⟨0, 5⟩, ⟨0, 5⟩] := by
+  decide
+
+/-- … while a callback that first takes its own timer out of the way (unplans it) and then calls
+`exec` gets the other due timers run in order, each once -/
+theorem nested_exec_after_unplan_witness :
+    (execX (fun k _ => if k = 0 then [ActX.unplan 0, ActX.exec 6] else []) 5 5 0
+        ((Mgr.init.plan3 0 0 5).plan3 1 0 6)).2.1 = [⟨0, 5⟩, ⟨1, 6⟩] := by
+  decide
+
+/-- destroying its own timer from a callback: `exec` then reads the dead object (finding
+C16-destroy-self-in-callback); destroying the NEXT timer in the list is harmless -/
+theorem destroy_in_callback_witness :
+    (execX (fun k _ => if k = 0 then [ActX.destroy 0] else []) 5 5 0 ((Mgr.init.plan3 0 0 5).plan3 1 0 5)).2.2 = Stat.uaf ∧
+    (execX (fun k _ => if k = 0 then [ActX.destroy 1] else []) 5 5 0 ((Mgr.init.plan3 0 0 5).plan3 1 0 5)).2 =
+      ([⟨0, 5⟩], Stat.done) := by
+  decide
 
 end Igris.C16
